@@ -1,5 +1,5 @@
 (* Facts about the transcribed semantic tokenizer that hold for every byte string. *)
-From HL Require Import Lib.Bytes Lib.Utf8 Lib.UnicodeTables Model.Lexer Model.Parser Model.Semantic Model.SemTokens.
+From HL Require Import Lib.Bytes Lib.Utf8 Lib.UnicodeTables Model.Lexer Model.Parser Model.Semantic Model.SemTokens Proofs.LexerColumns.
 From Coq Require Import ZifyN ZifyNat ZifyBool.
 Open Scope N_scope.
 Arguments N.add : simpl never.
@@ -63,3 +63,64 @@ Qed.
 (* for every byte string: every semantic token has a type of the 13-entry legend and a non-zero length *)
 Theorem sem_tokens_fine text : Forall tok_fine (sem_tokens text).
 Proof. unfold sem_tokens. destruct (lex text); [apply sem_loop_fine|constructor]. Qed.
+
+(* ---- where the tokens sit: every token that is not a tag / tag-value token starts where a token of
+   the lexer starts ---- *)
+Definition is_tag_tok (x : tok) : Prop := t_type x = 5 \/ t_type x = 12.
+Definition starts_at (k : token) (x : tok) : Prop :=
+  t_line x = tp_line (tk_pos k) - 1 /\ t_col x = tp_col (tk_pos k) - 1.
+
+Lemma tag_tokens_parts_tags : forall parts text bl bc ss, Forall is_tag_tok (tag_tokens_parts parts text bl bc ss).
+Proof.
+  induction parts as [|part rest IH]; intros text bl bc ss; cbn [tag_tokens_parts]; [constructor|].
+  cbv zeta.
+  destruct (index_byte 58 (trim_space_u part)) as [ci|]; [|apply IH].
+  destruct (beq _ [] || negb (sem_valid_tag_name _)); [apply IH|].
+  destruct (index_sub _ (skipn ss text)) as [ts|]; [|apply IH].
+  destruct (trim_space_u (skipn (S ci) (trim_space_u part))) as [|v0 vr] eqn:Ev.
+  - constructor; [left; reflexivity|apply IH].
+  - destruct (index_sub (v0 :: vr) _) as [vs|].
+    + constructor; [left; reflexivity|]. constructor; [right; reflexivity|apply IH].
+    + constructor; [left; reflexivity|apply IH].
+Qed.
+
+Lemma tag_tokens_tags t : Forall is_tag_tok (tag_tokens t).
+Proof. unfold tag_tokens. destruct (index_byte 58 (tk_val t)); [apply tag_tokens_parts_tags|constructor]. Qed.
+
+Lemma sem_step_origin st t : Forall (fun x => is_tag_tok x \/ starts_at t x) (snd (sem_step st t)).
+Proof.
+  unfold sem_step. cbv zeta.
+  match goal with |- context [match map_token_type ?ty with _ => _ end] => destruct (map_token_type ty) as [ty0|] end;
+    [|cbn [snd]; constructor].
+  match goal with |- context [if ?c then (2, ?a) else (ty0, ?b)] => destruct c end;
+  (match goal with |- context [if ?c then tag_tokens t else []] => destruct c end;
+   [pose proof (tag_tokens_tags t) as TF; destruct (tag_tokens t) as [|x xs];
+    [|cbn [snd]; eapply Forall_impl; [|exact TF]; intros a Ha; left; exact Ha]|];
+   match goal with |- context [if ?l =? 0 then _ else _] => destruct (l =? 0) end; cbn [snd];
+   match goal with
+   | |- Forall _ [] => constructor
+   | |- Forall _ [_] => constructor; [right; unfold starts_at; cbn [t_line t_col]; split; reflexivity|constructor]
+   end).
+Qed.
+
+Lemma sem_loop_origin : forall l st,
+  Forall (fun x => is_tag_tok x \/ exists k, In k l /\ starts_at k x) (sem_loop st l).
+Proof.
+  induction l as [|t r IH]; intro st; cbn [sem_loop]; [constructor|].
+  destruct (is_ty (tk_type t) TEOF); [constructor|].
+  pose proof (sem_step_origin st t) as F. destruct (sem_step st t) as [st' out]. cbn [snd] in F.
+  apply Forall_app. split.
+  - eapply Forall_impl; [|exact F]. intros a [Ha|Ha]; [left; exact Ha|right; exists t; split; [left; reflexivity|exact Ha]].
+  - eapply Forall_impl; [|apply IH]. intros a [Ha|(k & Hk & Ha)]; [left; exact Ha|right; exists k; split; [right; exact Hk|exact Ha]].
+Qed.
+
+(* for every byte string: a semantic token that is not a tag / tag-value token starts at the start of a
+   token of the lexer, which is a place of the text on a rune boundary (tok_ok, LexerColumns) *)
+Theorem sem_tokens_start_at_lexer_tokens text toks : lex text = Some toks ->
+  Forall (fun x => is_tag_tok x \/ exists k, In k toks /\ Proofs.LexerColumns.tok_ok text k /\ starts_at k x) (sem_tokens text).
+Proof.
+  intro H. unfold sem_tokens. rewrite H. pose proof (Proofs.LexerColumns.lex_positions text toks H) as P.
+  rewrite Forall_forall in P.
+  eapply Forall_impl; [|apply sem_loop_origin]. intros a [Ha|(k & Hk & Ha)]; [left; exact Ha|].
+  right. exists k. split; [exact Hk|]. split; [apply P; exact Hk|exact Ha].
+Qed.
